@@ -17,7 +17,7 @@ Map(f(_), s) == [j \in 1..Len(s) |-> f(s[j])]
 \* Pats.f / .m / .x: is the function / macro / member strip pattern "^_p_" configured (else "")
 CONSTANT Pats
 C(k, a) ==
-  [k |-> k, d |-> FALSE, a |-> a, up |-> Map(Up, a),
+  [k |-> k, nm |-> k, d |-> FALSE, a |-> a, up |-> Map(Up, a),
    s |-> IF (k = "function" /\ Pats.f) \/ (k = "macro" /\ Pats.m) THEN Map(StripP, a) ELSE a,
    x |-> IF Pats.x THEN Map(StripP, a) ELSE a,
    trig |-> FALSE, cpds |-> <<>>, ord |-> a]
